@@ -445,6 +445,7 @@ func runC07(c *an.Ctx) {
 	ruleT2(c)
 	ruleT3(c)
 	ruleT4(c)
+	ruleT5(c)
 }
 
 func ruleT2(c *an.Ctx) {
